@@ -6,7 +6,7 @@
  * usage: drv_dtls <cases.txt> <out.ndjson>
  *   X id=<n> cid=<client identity> ckey=<client key> sk=<id:key,id:key,...> hint=<server hint> acc=<1: client accepts the hint>
  *     nq=<requests queued during the handshake> obs=<k: the k-th of them carries Observe (per-request state in the library); 9: all of them>
- *     tk2=<1: two-byte tokens (i, 0xee) instead of the one-byte token i> inj=<0 | 1 cleartext CoAP from a new peer | 2 cleartext CoAP from the client's address>
+ *     tk2=<1: two-byte tokens (i, 0xee) instead of the one-byte token i> nonq=<k: the k-th queued request is Non-confirmable; 9: all> inj=<0 | 1 cleartext CoAP from a new peer | 2 cleartext CoAP from the client's address>
  *     rel=<release the client session after this many ms of virtual time; 0 = never> idcb=<1: server checks the identity, 0: one key for all>
  *     drop=<indices of datagrams to lose, e.g. 0,3>   dup=<indices of datagrams the network delivers twice (the copy right behind the original)>
  *     mute=1: every application-data record from the server is lost (alerts pass)   sclose=<ms>: the server context is freed after that time
@@ -25,7 +25,7 @@ static coap_context_t *sctx, *cctx;
 static coap_session_t *csess;
 static coap_address_t srv_addr;
 static char cid[64], ckey[64], hint[64], skid[MAXK][64], skkey[MAXK][64];
-static int nsk, acc, nq, inj, rel, idcb, emitted, nsni, muted, obsq, tk2;
+static int nsk, acc, nq, inj, rel, idcb, emitted, nsni, muted, obsq, tk2, nonq;
 static char sni[64], warm[64], snin[MAXK][64], snikey[MAXK][64];
 static coap_dtls_spsk_info_t sni_info;
 static coap_dtls_cpsk_info_t winfo;       /* what the warm-up session presents */
@@ -150,8 +150,8 @@ static void run_case(int id) {
   int i;
   sim_reset(1000);
   emitted = 0;
-  fprintf(sim_trace, "{\"e\":\"Reset\",\"id\":%d,\"cid\":\"%s\",\"ckey\":\"%s\",\"hint\":\"%s\",\"acc\":%s,\"idcb\":%s,\"nq\":%d,\"obs\":%d,\"tk2\":%d,\"inj\":%d,\"rel\":%d,\"ndrops\":%d,\"snicb\":%s,\"sni\":\"%s\",\"warm\":\"%s\",\"table\":[",
-          id, cid, ckey, hint, acc ? "true" : "false", idcb ? "true" : "false", nq, obsq, tk2, inj, rel, ndrops + (mute_srv ? 1 : 0), nsni ? "true" : "false", sni, warm);
+  fprintf(sim_trace, "{\"e\":\"Reset\",\"id\":%d,\"cid\":\"%s\",\"ckey\":\"%s\",\"hint\":\"%s\",\"acc\":%s,\"idcb\":%s,\"nq\":%d,\"obs\":%d,\"tk2\":%d,\"nonq\":%d,\"inj\":%d,\"rel\":%d,\"ndrops\":%d,\"snicb\":%s,\"sni\":\"%s\",\"warm\":\"%s\",\"table\":[",
+          id, cid, ckey, hint, acc ? "true" : "false", idcb ? "true" : "false", nq, obsq, tk2, nonq, inj, rel, ndrops + (mute_srv ? 1 : 0), nsni ? "true" : "false", sni, warm);
   for (i = 0; i < nsk; i++) fprintf(sim_trace, "%s[\"%s\",\"%s\"]", i ? "," : "", skid[i], skkey[i]);
   fputs("],\"snitable\":[", sim_trace);
   for (i = 0; i < nsni; i++) fprintf(sim_trace, "%s[\"%s\",\"%s\"]", i ? "," : "", snin[i], snikey[i]);
@@ -219,7 +219,7 @@ static void run_case(int id) {
   csess = coap_new_client_session_psk2(cctx, NULL, &srv_addr, COAP_PROTO_DTLS, &cpsk);
   if (!csess) fputs("{\"e\":\"NoSession\"}\n", sim_trace);
   for (i = 1; csess && i <= nq; i++) {
-    coap_pdu_t *pdu = coap_new_pdu(COAP_MESSAGE_CON, COAP_REQUEST_CODE_GET, csess);
+    coap_pdu_t *pdu = coap_new_pdu((nonq == i || nonq == 9) ? COAP_MESSAGE_NON : COAP_MESSAGE_CON, COAP_REQUEST_CODE_GET, csess);
     uint8_t tk[2] = { (uint8_t)i, 0xee };
     coap_mid_t mid;
     coap_add_token(pdu, tk2 ? 2 : 1, tk);
@@ -293,6 +293,7 @@ int main(int argc, char **argv) {
       field(line, " inj=", buf, sizeof(buf)); inj = atoi(buf);
       buf[0] = 0; field(line, " obs=", buf, sizeof(buf)); obsq = atoi(buf);
       buf[0] = 0; field(line, " tk2=", buf, sizeof(buf)); tk2 = atoi(buf);
+      buf[0] = 0; field(line, " nonq=", buf, sizeof(buf)); nonq = atoi(buf);
       field(line, " rel=", buf, sizeof(buf)); rel = atoi(buf);
       field(line, " idcb=", buf, sizeof(buf)); idcb = atoi(buf);
       field(line, " drop=", buf, sizeof(buf));
